@@ -339,7 +339,10 @@ fn check_frame(c: &FrameCase, cx: &mut Ctx) -> R {
                 $body!(s, gimli::EhFrameOffset)
             } else {
                 let mut s = DebugFrame::new(&built.bytes, endian);
-                s.set_address_size(a);
+                // version 4 CIEs carry their own address size, which governs them and their FDEs: when every CIE of
+                // the section is version 4, the section's default is (for odd numbers of FDEs) a different size
+                let all_v4 = !c.cies.is_empty() && c.cies.iter().all(|x| x.version == 4);
+                s.set_address_size(if all_v4 && c.fdes.len() % 2 == 1 { if a == 8 { 4 } else { 8 } } else { a });
                 $body!(s, gimli::DebugFrameOffset)
             }
         };
